@@ -164,8 +164,8 @@ def sanitizer_reports(log):
 
 
 # rounds of the thorough tier per property, sized so that a thorough run takes a few minutes on 16 cores
-THOROUGH_ROUNDS = {"C01": 4, "C02": 3, "C03": 10, "C04": 5, "C05": 12, "C06": 16, "C07": 16, "C08": 3, "C09": 12, "C10": 10, "C11": 12,
-                   "C12": 10, "C13": 10, "C14": 12, "C15": 3, "C16": 3, "C17": 4, "C18": 10, "C19": 2, "C20": 1}
+THOROUGH_ROUNDS = {"C01": 4, "C02": 3, "C03": 20, "C04": 10, "C05": 24, "C06": 32, "C07": 32, "C08": 6, "C09": 24, "C10": 20, "C11": 24,
+                   "C12": 20, "C13": 20, "C14": 24, "C15": 3, "C16": 3, "C17": 8, "C18": 20, "C19": 2, "C20": 1}
 
 
 def main(argv=None):
